@@ -15,11 +15,11 @@ Definition event_eqb (a b : event) : bool :=
   | EvCleanup o c r, EvCleanup o' c' r' => Nat.eqb o o' && Nat.eqb c c' && Nat.eqb r r'
   | EvInt r, EvInt r' => Nat.eqb r r'
   | EvTrans a f, EvTrans a' f' => Bool.eqb a a' && opt_eqb Nat.eqb f f'
-  | EvPickup i, EvPickup j => Nat.eqb i j
+  | EvPickup i a, EvPickup j b => Nat.eqb i j && Bool.eqb a b
   | _, _ => false
   end.
 
-Definition observable (e : event) : bool := match e with EvPickup _ => false | _ => true end.
+Definition observable (e : event) : bool := match e with EvPickup _ _ => false | _ => true end.
 
 Record obs := {
   o_events : list event;          (* chronological, observable events of this op *)
